@@ -2,6 +2,7 @@
    Generated once by tools/mkpins.py from Props/C06b_ndisc.v and then committed: edit both or neither. *)
 From SV Require Import Lib.Base Gen.WireFields Model.WireBase Proofs.WireBaseProofs.
 From SV Require Import Model.WireIpv6 Model.WireNdiscOpt Proofs.WireNdiscOptProofs.
+From SV Require Import Model.WireIcmpv6Hdr Proofs.WireIcmpv6HdrProofs Model.WireNdisc Proofs.WireNdiscProofs.
 From SV Require Import Props.C06b_ndisc.
 
 Check (C06_ndopt_emit_no_panic : forall r b,
@@ -24,3 +25,29 @@ Check (C06_ndopt_reparse : forall bs r,
   ndopt_wf r = true /\
   forall b, blen b = ndopt_buffer_len r ->
     exists bs', ndopt_emit r b = Ok bs' /\ ndopt_parse bs' = Ok r).
+
+Check (C06_ndisc_raw_emit_no_panic : forall r b,
+  ndisc_wf r = true -> blen b = ndisc_buffer_len r -> ndisc_emit r b <> Panic).
+
+Check (C06_ndisc_emit_no_panic : forall (sum_fill : list Z -> Z) tx r b,
+  ndisc_wf r = true -> blen b = ndisc_buffer_len r -> ndisc_icmp_emit sum_fill tx r b <> Panic).
+
+Check (C06_ndisc_emit_ignores_old_bytes : forall (sum_fill : list Z -> Z) tx r b1 b2,
+  ndisc_wf r = true -> blen b1 = ndisc_buffer_len r -> blen b2 = ndisc_buffer_len r ->
+  ndisc_icmp_emit sum_fill tx r b1 = ndisc_icmp_emit sum_fill tx r b2).
+
+Check (C06_ndisc_roundtrip : forall (sum_fill : list Z -> Z) tx r b,
+  ndisc_wf r = true -> blen b = ndisc_buffer_len r ->
+  exists bs, ndisc_icmp_emit sum_fill tx r b = Ok bs /\ blen bs = ndisc_buffer_len r /\
+             ndisc_parse bs = Ok r).
+
+Check (C06_ndisc_icmp_roundtrip : forall (sum_ok : list Z -> bool) (sum_fill : list Z -> Z) tx rx r b,
+  icmp6h_cksum_link sum_ok sum_fill -> (rx = true -> tx = true) ->
+  ndisc_wf r = true -> blen b = ndisc_buffer_len r ->
+  exists bs, ndisc_icmp_emit sum_fill tx r b = Ok bs /\ ndisc_icmp_parse sum_ok rx bs = Ok r).
+
+Check (C06_ndisc_reparse : forall (sum_fill : list Z -> Z) tx bs r,
+  bytes_ok bs = true -> ndisc_parse bs = Ok r ->
+  ndisc_wf r = true /\
+  forall b, blen b = ndisc_buffer_len r ->
+    exists bs', ndisc_icmp_emit sum_fill tx r b = Ok bs' /\ ndisc_parse bs' = Ok r).
